@@ -32,6 +32,10 @@ def loads(kind: str):
             v = loadgen.build_profile([{"dir": "both", "cday": "mid", "hday": "second", "shape": "6h", "base": 0.05, "pc": 90.0, "ph": 60.0}] * 12)
         elif kind == "heating_first_day":
             v = loadgen.build_profile([{"dir": "h", "hday": "first", "shape": "6h", "base": 0.2, "pc": 0.0, "ph": 45.0}] * 12)
+        elif kind == "december_only":
+            v = [0.0] * 8760
+            for h in range(loadgen.month_start_hour(11), 8760):
+                v[h] = 9000.0  # extraction in December only: the coldest fluid is the last step of the horizon
         elif kind == "negligible":
             v = [x * 1e-3 for x in base(0.6)]
         elif kind == "too_large":
